@@ -86,7 +86,7 @@ static int check_single(Choice& c, Report& rep, const std::vector<uint8_t>& pkt)
   int fdif = pk::frames_differ(pkt.data(), f.m, b.p, g.m);
   VP_REQUIRE(!fdif, "c07:pad-frames-differ", "pad(%d -> %d): frames differ (%d frames before, %d after, first difference %d)", len, new_len, f.m.count, g.m.count, fdif);
   VP_REQUIRE(g.ext_ok && first_diff(f.exts, g.exts) < 0, "c07:pad-extensions-differ", "pad(%d -> %d): extensions in the padding changed (parse ok %d)", len, new_len, g.ext_ok);
-  bool crosses = (f.m.padding_len + (f.m.padding_len > 0 || (pkt[0] & 3) == 3) >= 255) != (g.m.padding_len + 1 >= 255) || (f.m.padding_len < 254) != (g.m.padding_len < 254);
+  bool crosses = (f.m.padding_len < 254) != (g.m.padding_len < 254);    // padding-length field grows from one to two bytes
   if (crosses) { rep.label("pad:crosses-255"); rep.nontrivial(); }
   if (total(f.exts)) rep.label("pad:with-extensions");
   if (amount == 1) rep.label("pad:+1");
@@ -303,7 +303,7 @@ static int check_twin(Choice& c, Report& rep) {
     VP_REQUIRE(ra == rc, "c07:unpad-decode-differs", "packet %zu: final range 0x%08x vs 0x%08x after unpad(pad(p))", i, ra, rc);
     VP_REQUIRE(!memcmp(pa.p, pb.p, (size_t)na * chd * sizeof(opus_int16)), "c07:pad-decode-differs", "packet %zu (+%d bytes): decoded audio differs", i, amount);
     VP_REQUIRE(!memcmp(pa.p, pc.p, (size_t)na * chd * sizeof(opus_int16)), "c07:unpad-decode-differs", "packet %zu: decoded audio differs after unpad(pad(p))", i);
-    if ((len + amount >= 256) != (len >= 256) || amount >= 254) { rep.label("pad:crosses-255"); rep.nontrivial(); }
+    if (amount >= 255) { rep.label("pad:crosses-255"); rep.nontrivial(); }
     static const char* const MODE[] = {"twin:silk", "twin:hybrid", "twin:celt"};
     rep.label(MODE[rfc::toc_info(p[0]).mode]);
     if (len <= 2) rep.label("twin:dtx-or-tiny");
